@@ -316,8 +316,17 @@ func runAsm(in *asmInput) (hx.Case, error) {
 	}
 	c := hx.Case{Obs: o}
 	// registry entries that survive quiescence are leaked keys
-	goVerdict := first == "" && o.Regs == [3]int{}
-	c.Coq = hx.App("AsmCase", "true", hx.L(evs),
+	// The closing Enable+Reset rounds make the history quiescent. If the agent
+	// could not issue its whole script (a module below stopped accepting traffic)
+	// they never ran: only the open-trace clauses apply then.
+	quiescent := o.Done
+	if !quiescent {
+		first, _ = localWF(log, false)
+		o.FirstBad = first
+		c.Obs = o
+	}
+	goVerdict := first == "" && (!quiescent || o.Regs == [3]int{})
+	c.Coq = hx.App("AsmCase", hx.B(quiescent), hx.L(evs),
 		hx.T(hx.N(uint64(o.Regs[0])), hx.N(uint64(o.Regs[1])), hx.N(uint64(o.Regs[2]))), hx.B(goVerdict))
 	c.Tags, c.Nontrivial = asmShape(in, o)
 	c.Known = knownClass(in)
@@ -326,26 +335,22 @@ func runAsm(in *asmInput) (hx.Case, error) {
 
 // knownClass names, from the composition alone, the known finding (see
 // known_findings/C32.json) that a violation in this assembly is attributed to:
-// the reset teardown of these component kinds ends tasks that already ended (or
-// leaves tasks open), so any history with a Reset - every history here ends with
-// one - can violate the property. Assemblies of ideal / banked memory modules are
-// in no class: any violation there is reported.
+// DRAM modules leave req_in tasks open after a Reset, a writeback cache can still
+// charge a milestone to a request whose req_in a Reset already tore down, and a
+// component traced without buffer tracing on its ports adds admission milestones
+// to a buffer task nobody starts. Every other assembly (ideal / banked memory,
+// the three write-through cache kinds, the ROB, with buffer tracing) is in no
+// class: any violation is reported.
 func knownClass(in *asmInput) string {
-	for _, c := range in.Cfg.Caches {
-		if c.Kind != "writeback" {
-			return "wt_cache_reset_double_end"
-		}
-	}
-	if len(in.Cfg.Caches) > 0 {
-		return "writeback_reset_double_end_evict_milestone"
-	}
-	if in.Cfg.ROB != nil {
-		return "rob_reset_double_end"
-	}
 	if in.Cfg.Mem.Kind == "dram" {
 		return "dram_reset_open_req_in"
 	}
-	if !in.Buf && in.Cfg.Mem.Kind == "banked" {
+	for _, c := range in.Cfg.Caches {
+		if c.Kind == "writeback" {
+			return "writeback_reset_late_milestone"
+		}
+	}
+	if !in.Buf && (in.Cfg.Mem.Kind == "banked" || len(in.Cfg.Caches) > 0 || in.Cfg.ROB != nil) {
 		return "no_buffer_tracing_dangling_milestone"
 	}
 	return ""
